@@ -1,1 +1,27 @@
-//! Hooks for property C03 (empty unless needed).
+//! Hooks for property C03: access to the crate-private *client* side of the relay handshake,
+//! so that the harness can run the real honest client against the real `serverside`.
+use http::HeaderValue;
+use iroh_base::SecretKey;
+
+use crate::{
+    ExportKeyingMaterial,
+    protos::{handshake, streams::BytesStreamSink},
+};
+
+/// The real `handshake::clientside`. `Ok(())` when the server confirmed the authentication.
+pub async fn clientside(
+    io: &mut (impl BytesStreamSink + ExportKeyingMaterial),
+    secret_key: &SecretKey,
+) -> Result<(), handshake::Error> {
+    handshake::clientside(io, secret_key).await.map(|_| ())
+}
+
+/// The header value the real client attaches to its upgrade request
+/// (`KeyMaterialClientAuth::new(..).map(into_header_value)` as in `ClientBuilder::connect`).
+pub fn client_auth_header(
+    secret_key: &SecretKey,
+    io: &impl ExportKeyingMaterial,
+) -> Option<HeaderValue> {
+    handshake::KeyMaterialClientAuth::new(secret_key, io)
+        .map(handshake::KeyMaterialClientAuth::into_header_value)
+}
